@@ -207,6 +207,11 @@ def run_case(args):
                     wbad, tm = table_of(i2m); bad = list(wbad)
                     if tm is not None and (tm["order"] != desc["orders"] or tm.get("knots") != desc["knots"] or tm.get("coefficients") != desc["coeffs"] or tm.get("extents") != [list(e) for e in desc["extents"]] or [k for k, v in tm.get("aux", [])] != [k for k, v in desc["aux"]]): bad.append("content differs from the table written")
                     ob("memory back end: reading back yields an identical table", not bad, "; ".join(bad))
+                    # the library's own operator== (extracted, R37) on the original and the re-read table
+                    for n_ in ("ndim", "naux") + T.MEMBERS: im.globals["vp_other_" + n_].cells[0] = i2m.globals[n_].cells[0]
+                    eq = bool(im.call("vp_equals", []))
+                    if "nan" not in desc["coeffs"]: ob("the re-read table compares equal to the original (operator==)", eq, "operator== reports the re-read table different")
+                    else: ob("a table with NaN coefficients does not compare equal to its copy (IEEE semantics of operator==, not judged by C06)", True)
         # legacy files from the independent writer: no EXTENTS / PERIOD (default extents = the fully supported range, as fit() assigns them), single ORDER key
         variants = [("without EXTENTS and PERIOD", dict(extents=None, periods=None, single_order=False))]
         if len(set(desc["orders"])) == 1: variants.append(("with a single ORDER key", dict(extents=desc["extents"], periods=desc["periods"], single_order=True)))
@@ -286,7 +291,7 @@ def main():
         if k in fs: rep.functions.append(fs[k].info())
     global TPROG
     tp, tparams, tfns = T.build(vlib.workdir()); TPROG = (tp, tparams)
-    for k in ("write_fits_mem", "read_fits_mem"):
+    for k in ("write_fits_mem", "read_fits_mem", "vp_equals"):
         if k in tfns: rep.functions.append(tfns[k].info())
     cases = tables(thorough); t0 = time.time()
     with mp.Pool(min(vlib.NCORES, 16)) as pool: res = pool.map(run_case, cases, chunksize=1)
@@ -340,7 +345,7 @@ def main():
     rep.extra["rule"] = "one evaluation = one table written by the extracted writer, decoded by an independent reader of the documented layout, read back by the extracted reader and compared field by field; all tables are distinct and non-trivial"
     rep.assume("cfitsio is an ASSUMED CONTRACT (specs/fitsmodel.py); on the writer side its output is compared byte for byte with what the real library + installed cfitsio write for the same table, on the reader side see C07's conformance obligations",
                "BOUNDED: enumerated tables; the memory back end is covered through the extracted write_fits_mem / read_fits_mem over the same model (the buffer's bytes are the model file's); the reference files shipped under test/test_data are parsed byte by byte into the model and decoded by the extracted reader, the independent reader and the real library (C06-reference-files)",
-               "operator== is not extracted: equality is judged field by field by the check (the library's operator== is run natively on the re-read table for tables without NaN)",
+               "equality is judged field by field by the check; the library's operator== is extracted too (R37) and must report the re-read table equal for tables without NaN (it is also run natively)",
                "PERIODn values are written by cfitsio with 15 significant digits: exact only for the values explored (0, 6.25)")
     rep.trust("tools/gotoexec.py", "goto-cc front end", "tools/extract.py rules", "specs/fitsmodel.py")
     rep.finish(None)
